@@ -10,7 +10,7 @@ import struct
 
 __all__ = ["forall", "exists", "implies", "ite", "seq_eq_at", "unchanged", "is_nan", "is_finite", "f32_round",
            "float_eq", "f32_bytes", "f64_bytes", "ghost", "fresh_int", "f32_of_bytes", "f64_of_bytes", "prefix_sum", "fresh_bool",
-           "region_of", "region_size", "key_of", "reach", "reach_transitive", "reach_closed", "reach_depth", "field_seq", "has_attr_text"]
+           "region_of", "region_size", "key_of", "reach", "reach_transitive", "reach_closed", "reach_depth", "field_seq", "has_attr_text", "allocated", "the_region"]
 
 
 def forall(lo, hi, fn):
@@ -148,3 +148,13 @@ def field_seq(region, field):
 def has_attr_text(obj, name):
     """getattr(obj, name, None) is not None - the predicate the engine uses for lookups by a symbolic name."""
     return getattr(obj, name, None) is not None
+
+
+def allocated(region):
+    """number of objects of the region created so far (native reading: the objects of the list that exist)"""
+    return len(region)
+
+
+def the_region(spec):
+    """the heap region described by a contract.Region spec (symbolic reading only)"""
+    raise NotImplementedError("the_region has no concrete meaning")
